@@ -8,7 +8,9 @@ when a worker thread updates a characteristic while the event loop reads / subsc
       up with the new value as its latest event.
 
 "The new value" is the last update the characteristic accepted (a rejected update raises and must
-change nothing).  An update that does not change the value need not produce an event.
+change nothing).  An update that does not change the value need not produce an event.  Runs may
+also contain controller writes of the characteristic (serialised against the worker's updates by
+the caller), unsubscriptions, repeated subscriptions and timer expiries: see judge_timeline.
 """
 from __future__ import annotations
 
@@ -16,73 +18,79 @@ import json
 from typing import Any, Dict, List, Optional, Sequence, Tuple
 
 
-def expected_final(init: Any, updates: Sequence[Tuple[Any, bool]]) -> Any:
-    """Value after the accepted updates, in order.  `updates` = [(value_after_conversion, valid)]."""
-    cur = init
-    for v, ok in updates:
-        if ok:
-            cur = v
-    return cur
-
-
-def value_changed_ever(init: Any, updates: Sequence[Tuple[Any, bool]]) -> bool:
-    """Did some accepted update differ from the value it replaced?"""
-    cur = init
-    for v, ok in updates:
-        if ok:
-            if v != cur:
-                return True
-            cur = v
-    return False
-
-
 def parse_events(writes: Sequence[bytes], aid: int, iid: int) -> List[Any]:
     """Values of characteristic (aid, iid) carried by the HAP EVENT messages in a plaintext
-    transport log, in order of arrival."""
+    transport log, in order of arrival.  HTTP responses in the log (answers to the connection's
+    own requests) are skipped."""
     data = b"".join(writes)
     out: List[Any] = []
     while data:
-        if not data.startswith(b"EVENT/1.0 200 OK\r\n"):
-            raise ValueError("transport log is not a sequence of EVENT messages: %r" % data[:40])
-        head, _, rest = data.partition(b"\r\n\r\n")
-        length = None
+        is_event = data.startswith(b"EVENT/1.0 200 OK\r\n")
+        if not is_event and not data.startswith(b"HTTP/1.1 "):
+            raise ValueError("transport log is not a sequence of EVENT / HTTP messages: %r" % data[:40])
+        head, sep, rest = data.partition(b"\r\n\r\n")
+        if not sep:
+            raise ValueError("truncated message in the transport log")
+        length = 0
         for line in head.split(b"\r\n")[1:]:
             k, _, v = line.partition(b":")
             if k.strip().lower() == b"content-length":
                 length = int(v.strip())
-        if length is None:
-            raise ValueError("EVENT without Content-Length")
         body, data = rest[:length], rest[length:]
+        if not is_event:
+            continue
         for ent in json.loads(body)["characteristics"]:
             if ent.get("aid") == aid and ent.get("iid") == iid:
                 out.append(ent.get("value"))
     return out
 
 
-def judge(
+def judge_timeline(
     init: Any,
-    updates: Sequence[Tuple[Any, bool]],
+    timeline: Sequence[Dict[str, Any]],
     database_reads: Sequence[Any],
     direct_reads: Sequence[Any],
     events_by_conn: Dict[Any, List[Any]],
-    steady_subscribers: Sequence[Any],
 ) -> List[Tuple[str, str]]:
-    """Return [(signature, description)] for every demand of C20 that the observed run breaks.
+    """The same two demands for runs that also contain controller writes, unsubscriptions,
+    repeated subscriptions and timer expiries.
 
-    database_reads : value shown for the characteristic by each GET /accessories made after the
-                     interleaved operations completed (`None` entry = no representation at all)
-    direct_reads   : value returned by each GET /characteristics made after completion
-    events_by_conn : connection -> values of the events it received, in order
-    steady_subscribers : connections subscribed before the updates began and never unsubscribed
+    `timeline` lists, in real-time order, the start and the end of every loop operation and of
+    every worker update:
+        {"t": "update", "j": n, "value": v, "valid": bool, "phase": "start"|"end"}
+        {"t": "write", "c": conn, "value": v, "phase": ...}       controller write (acknowledged)
+        {"t": "sub" | "unsub", "c": conn, "phase": ...}
+    (other operations may appear and are ignored).  The caller guarantees that no controller write
+    overlaps a worker update, so the writes have one serial order.
+
+    (1) reads after completion show the last accepted write;
+    (2) if the last write that CHANGED the value is a worker update U: every connection whose
+        subscription request was answered before U began, and that sent no unsubscription from
+        then on (repeated subscriptions are fine), has the final value as its latest event.
+        When the last changing write is a controller's, C20 demands nothing of the events (that is
+        C12's subject).
     """
-    want = expected_final(init, updates)
+    cur = init
+    last_change = None  # (who, position of its start in the timeline)
+    for pos, ev in enumerate(timeline):
+        if ev["phase"] != "start":
+            continue
+        if ev["t"] == "update" and ev.get("valid"):
+            if ev["value"] != cur:
+                last_change = ("worker", pos)
+            cur = ev["value"]
+        elif ev["t"] == "write":
+            if ev["value"] != cur:
+                last_change = ("controller", pos)
+            cur = ev["value"]
+    want = cur
     bad: List[Tuple[str, str]] = []
     if any(r != want for r in direct_reads):
         bad.append(
             (
                 "C20:update-lost",
-                f"after the worker's updates completed, GET /characteristics returns {list(direct_reads)!r}, "
-                f"the last accepted update was {want!r}",
+                f"after everything completed GET /characteristics returns {list(direct_reads)!r}, the last "
+                f"accepted write was {want!r}",
             )
         )
     elif any(r != want for r in database_reads):
@@ -94,16 +102,30 @@ def judge(
                 "update's cache clear)",
             )
         )
-    if value_changed_ever(init, updates):
-        for c in steady_subscribers:
-            evs = events_by_conn.get(c, [])
-            if not evs or evs[-1] != want:
-                bad.append(
-                    (
-                        "C20:subscriber-missed-final-value",
-                        f"connection {c!r} was subscribed before the update began; its events were {evs!r}, "
-                        f"the final value is {want!r}",
-                    )
+    if last_change is None or last_change[0] != "worker":
+        return bad
+    t0 = last_change[1]
+    conns = sorted({ev["c"] for ev in timeline if ev["t"] in ("sub", "unsub")}, key=repr)
+    for c in conns:
+        subscribed_before = False
+        disqualified = False
+        for pos, ev in enumerate(timeline):
+            if ev.get("c") != c or ev["t"] not in ("sub", "unsub"):
+                continue
+            if ev["phase"] == "end" and pos < t0:
+                subscribed_before = ev["t"] == "sub"  # the last request answered before U began
+            if ev["t"] == "unsub" and ev["phase"] == "end" and pos > t0:
+                disqualified = True  # unsubscribed (or unsubscribing) from U's beginning on
+        if not subscribed_before or disqualified:
+            continue
+        evs = events_by_conn.get(c, [])
+        if not evs or evs[-1] != want:
+            bad.append(
+                (
+                    "C20:subscriber-missed-final-value",
+                    f"connection {c!r} was subscribed before the worker's update to {want!r} began and stayed "
+                    f"subscribed; the events it received were {evs!r}",
                 )
-                break
+            )
+            break
     return bad
